@@ -32,8 +32,14 @@ for sf in sorted(glob.glob(os.path.join(root, "logs", "san", f"{pid}.*.status.js
         tot = {}
         for l in done:
             for k, v in re.findall(r"(\w+)=(\d+)", l):
-                tot[k] = tot.get(k, 0) + int(v)
+                if k == "seed":  # the harness seed (same workload in every scheduler seed), not a count
+                    entry["seed"] = int(v)
+                elif k.startswith("max_"):
+                    tot[k] = max(tot.get(k, 0), int(v))
+                else:
+                    tot[k] = tot.get(k, 0) + int(v)
         entry["totals_over_seeds"] = tot
+        entry["evaluations"] = len(done)  # executions: one per Miri scheduler seed
         entry["sample_summary_line"] = done[0] if done else None
     passes.append(entry)
 cov = ev.setdefault("coverage", {})
